@@ -172,6 +172,61 @@ pub fn unhex(s: &str) -> Vec<u8> {
     (0..s.len() / 2).map(|i| u8::from_str_radix(&s[2 * i..2 * i + 2], 16).unwrap_or(0)).collect()
 }
 
+// ---- in-process watchdog -----------------------------------------------------------------------
+// Engine A runs the code under test on the check's own threads; a case that does not terminate would
+// hang the check for ever. Every executed case is registered; a monitor thread ends the process when
+// one runs longer than VERIF_CASE_LIMIT_S (default 240 s; the slowest legitimate case - an Engine B
+// session that hits its own 3 x 20 s watchdog - stays far below). Non-termination is what C02 is
+// about: there it is a violation with a replay file; for every other property the run is
+// inconclusive (exit 2), never a violation.
+struct RunningCase {
+    started: Instant,
+    part: String,
+    bytes: Vec<u8>,
+}
+
+static RUNNING: Mutex<Vec<(std::thread::ThreadId, RunningCase)>> = Mutex::new(Vec::new());
+
+pub fn run_guarded(check: &dyn Check, bytes: &[u8]) -> CaseResult {
+    let me = std::thread::current().id();
+    if let Ok(mut g) = RUNNING.lock() {
+        g.retain(|(t, _)| *t != me);
+        g.push((me, RunningCase { started: Instant::now(), part: check.part().to_string(), bytes: bytes.to_vec() }));
+    }
+    let r = check.run(bytes);
+    if let Ok(mut g) = RUNNING.lock() {
+        g.retain(|(t, _)| *t != me);
+    }
+    r
+}
+
+pub fn start_case_monitor(id: &str) {
+    let id = id.to_string();
+    let limit = std::env::var("VERIF_CASE_LIMIT_S").ok().and_then(|v| v.parse::<u64>().ok()).unwrap_or(240);
+    std::thread::spawn(move || loop {
+        std::thread::sleep(std::time::Duration::from_millis(500));
+        let overdue = RUNNING.lock().ok().and_then(|g| g.iter().find(|(_, c)| c.started.elapsed().as_secs() >= limit).map(|(_, c)| (c.part.clone(), c.bytes.clone())));
+        if let Some((part, bytes)) = overdue {
+            if id == "C02" {
+                let dir = format!("{}/replays", verif_root());
+                let _ = std::fs::create_dir_all(&dir);
+                let path = format!("{}/{}-{:016x}.json", dir, id, fnv(&bytes) ^ 0x4a46);
+                let v = json!({
+                    "property": id, "part": part, "bytes": hex(&bytes), "sig": "does-not-terminate",
+                    "what": format!("a case of part {} has been running for {} s: analysis or a handler does not terminate", part, limit),
+                });
+                let _ = std::fs::write(&path, serde_json::to_string_pretty(&v).unwrap());
+                println!("  failure: a case of part {} has been running for {} s: analysis or a handler does not terminate (does-not-terminate)", part, limit);
+                println!("VIOLATION property={} replay={}", id, path);
+                std::process::exit(1);
+            } else {
+                eprintln!("INCONCLUSIVE property={}: a case of part {} has been running for {} s (non-termination of the code under test is C02's subject); bytes={}", id, part, limit, hex(&bytes));
+                std::process::exit(2);
+            }
+        }
+    });
+}
+
 fn write_replay(ctx: &Ctx, check: &dyn Check, bytes: &[u8], f: &Failure) -> String {
     let dir = format!("{}/replays", verif_root());
     let _ = std::fs::create_dir_all(&dir);
@@ -286,7 +341,7 @@ pub fn run_pbt(ctx: &Ctx, check: &dyn Check, cases: u64) -> Part {
                     if shrinking.is_none() && shared.stop.load(Ordering::Relaxed) {
                         return Ok(());
                     }
-                    let r = check.run(&bytes);
+                    let r = run_guarded(check, &bytes);
                     match shrinking {
                         None => {
                             if let Some(f) = account(&mut local.lock().unwrap(), ctx, check, &bytes, &r) {
@@ -305,7 +360,7 @@ pub fn run_pbt(ctx: &Ctx, check: &dyn Check, cases: u64) -> Part {
                 });
                 if let Err(TestError::Fail(_, bytes)) = result {
                     let sig = failing_sig.lock().unwrap().clone();
-                    let r = check.run(&bytes);
+                    let r = run_guarded(check, &bytes);
                     let confirmed = unknown_failure(ctx, &r, sig.as_deref()).map(|f| (bytes, f)).or_else(|| {
                         first.lock().unwrap().take().map(|(b, mut f)| {
                             f.what = format!("{} [observed once; the shrunk case did not fail again when re-run, so the original case is kept: schedule or timing dependent]", f.what);
@@ -338,7 +393,7 @@ pub fn run_pbt(ctx: &Ctx, check: &dyn Check, cases: u64) -> Part {
         // second, domain-aware pass
         let mut written = None;
         if let Some((c2, b2)) = check.minimise(&bytes) {
-            let r2 = c2.run(&b2);
+            let r2 = run_guarded(c2.as_ref(), &b2);
             if let Some(f2) = unknown_failure(ctx, &r2, None) {
                 written = Some((write_replay(ctx, c2.as_ref(), &b2, &f2), f2));
             }
@@ -395,7 +450,7 @@ pub fn run_list(ctx: &Ctx, check: &dyn Check, name: &str, inputs: &[Vec<u8>], ex
                     if stop.load(Ordering::Relaxed) {
                         break;
                     }
-                    let r = check.run(bytes);
+                    let r = run_guarded(check, bytes);
                     if let Some(f) = account(&mut local, ctx, check, bytes, &r) {
                         stop.store(true, Ordering::Relaxed);
                         let mut g = found.lock().unwrap();
@@ -438,7 +493,7 @@ pub fn replay(ctx: &Ctx, checks: &[&dyn Check], path: &str) -> i32 {
     let bytes = unhex(v["bytes"].as_str().unwrap_or(""));
     for c in checks {
         if c.part() == part {
-            let r = c.run(&bytes);
+            let r = run_guarded(*c, &bytes);
             println!("case: {}", serde_json::to_string_pretty(&c.describe(&bytes)).unwrap());
             let mut code = 0;
             for f in &r.failures {
@@ -700,7 +755,7 @@ pub fn fuzz_part(ctx: &Ctx, target: &str, check: &dyn Check, runs: u64, max_len:
     if let Ok(rd) = std::fs::read_dir(&corpus) {
         for e in rd.flatten().take(5000) {
             if let Ok(bytes) = std::fs::read(e.path()) {
-                let r = check.run(&bytes);
+                let r = run_guarded(check, &bytes);
                 if r.nontrivial {
                     part.nontrivial_keys.insert(r.key);
                 }
@@ -714,7 +769,7 @@ pub fn fuzz_part(ctx: &Ctx, target: &str, check: &dyn Check, runs: u64, max_len:
     if let Ok(rd) = std::fs::read_dir(&artifacts) {
         for e in rd.flatten() {
             let Ok(bytes) = std::fs::read(e.path()) else { continue };
-            let r = check.run(&bytes);
+            let r = run_guarded(check, &bytes);
             if let Some(f) = unknown_failure(ctx, &r, None) {
                 let path = write_replay(ctx, check, &bytes, &f);
                 part.violation = Some(Violation { sig: f.sig, what: f.what, replay: path });
